@@ -1,8 +1,30 @@
 import enum
 
+from typing import Final
+
 from kio.static.primitive import i8
 
 
 class NullableEntityMarker(enum.Enum):
     null = i8(-1)
     not_null = i8(1)
+
+
+# Kafka types that cannot represent null on the wire.
+types_without_null_form: Final = frozenset(
+    {
+        "int8",
+        "int16",
+        "int32",
+        "int64",
+        "uint8",
+        "uint16",
+        "uint32",
+        "uint64",
+        "float64",
+        "bool",
+        "error_code",
+        "timedelta_i32",
+        "timedelta_i64",
+    }
+)
